@@ -251,7 +251,9 @@ def check_distribution(ctx, c):
                     # |noise| of the numerical transform in the tail is counted as probability mass: a refined transform reduces it
                     fine = _build(dict(d, hankel_kw={"N": 5000, "h": 2e-5}))
                     total_f = quad(lambda k: float(np.asarray(fine.spectral_rad_pdf(np.array([k])))[0]), 0, upper, points=pts, limit=800, epsabs=1e-12, epsrel=1e-10)[0]
-                    if abs(total_f - 1.0) < 0.5 * abs(total - 1.0) or total_f <= 1.0 + 3e-2:
+                    # (a mass that moves by more than 20 % of its excess with the resolution of the transform is an artefact of the
+                    # transform: rough models such as TPLStable(alpha ~ 0.5, len_low > 0) do not converge even at N = 20000)
+                    if abs(total_f - 1.0) < 0.5 * abs(total - 1.0) or total_f <= 1.0 + 3e-2 or abs(total_f - total) > 0.2 * abs(total - 1.0):
                         m2["mechanism"] = "numerical-spectrum/hankel-default-resolution"
                 ctx.fail(m2, f"{name} {d.get('opt')} dim {dim}: partial integral {total!r} > 1")
                 return
